@@ -7,7 +7,7 @@ from props import impcommon as ic
 ID = "C12"
 PROP_FILE = "props/C12.v"
 COQ_TARGETS = ["props/C12.v"]
-THEOREMS = ["C12_iff", "C12_plain_iff", "C12_other_loader", "C12_other_thread", "C12_accepting_stay_enabled"]
+THEOREMS = ["C12_iff", "C12_plain_iff", "C12_other_loader", "C12_other_thread", "C12_accepting_stay_enabled", "C12_later_iff", "C12_after_context", "C12_later_now"]
 TRUSTED_BASE = [
     "Coq 8.16.1 kernel, vm_compute for the in-coqc correspondence",
     "model/Import.v part 1: hand transcription of the decisions of TraceFinder.find_spec, TraceLoader.get_tracers_for_path / source_to_code / exec_module "
@@ -35,7 +35,9 @@ def gen_case(rng):
             acc = [f for f in ic.FILES if rng.random() < rng.choice([0.2, 0.5, 0.8])]
         tracers.append({"cls": "Tr%s" % "ABC"[i], "accept": acc, "events": rng.choice(EVENT_SETS), "guards": rng.random() < 0.6})
     return {"seed": rng.randrange(10 ** 6), "tracers": tracers, "pre_e": rng.random() < 0.4, "reimport": rng.random() < 0.4,
-            "reload": rng.choice([None, None, "pk.b", "px.e", "pk.sub.c"]), "evict": rng.choice([None, None, None, "pk.b", "px.e"])}
+            "reload": rng.choice([None, None, "pk.b", "px.e", "pk.sub.c"]), "evict": rng.choice([None, None, None, "pk.b", "px.e"]),
+            # px.g: its spec (and loader) is obtained inside the context, the module is executed after every context / inside a second context of the first tracer
+            "deferred": rng.choice([None, "after", "after", "first"])}
 
 
 def accepts(t, f):
@@ -50,7 +52,11 @@ def payloads(c):
     # fa / fb take an argument: call them through zero-argument wrappers defined below in the layout
     base["calls"] = ["pk.call_fa", "px.e.fe"]
     base["post_calls"] = ["pk.call_fa"]
-    out = [dict(base)]                                                  # plain
+    plain = dict(base)
+    if c.get("deferred"):
+        plain["post"] = base["post"] + ["px.g"]
+        base["deferred"] = {"module": "px.g", "load": c["deferred"]}
+    out = [plain]                                                       # plain
     out.append(dict(base, tracers=c["tracers"]))                        # stacked
     for t in c["tracers"]:
         out.append(dict(base, tracers=[t]))                             # each alone
@@ -105,7 +111,20 @@ def oracle_case(c, rs):
             return {"what": "process %d crashed: %s" % (k, r["crash"][-300:]), "kind": "crash"}
         if r["errors"]:
             return {"what": "process %d: %s" % (k, r["errors"][0][:4]), "kind": "error", "process": k}
+    want_g = plain["ns"].pop("px.g", None)
     for k, r in enumerate(rs[1:], 1):
+        got_g = r["ns"].pop("deferred:px.g", None)
+        if c.get("deferred"):
+            # the deferred module: same contents as the plain import; events only for the first tracer of the process, only when it loads inside
+            # that tracer's second context and the tracer accepts the file
+            trs = c["tracers"] if k == 1 else [c["tracers"][(k - 2) % n]]
+            who = sorted({e[0] for e in r.get("deferred_events", [])})
+            exp = [0] if c["deferred"] == "first" and (k >= 2 + n or accepts(trs[0], "px/g.py")) else []
+            if got_g != want_g:
+                return {"what": "process %d: the module loaded later through a loader obtained inside the context differs from the plain import: %s" % (k, got_g), "kind": "deferred-ns", "process": k}
+            if who != exp:
+                return {"what": "process %d: a loader obtained inside the context and used %s delivered events to tracers %s, expected %s"
+                                % (k, "after every context" if c["deferred"] == "after" else "inside a second context of the first tracer", who, exp), "kind": "deferred", "process": k}
         if r["ns"] != plain["ns"] or r.get("call_results") != plain.get("call_results") or r.get("post_call_results") != plain.get("post_call_results"):
             diff = [m for m in plain["ns"] if r["ns"].get(m) != plain["ns"][m]]
             return {"what": "process %d: module contents / results differ from the plain import (%s)" % (k, diff), "kind": "namespace", "process": k}
@@ -177,8 +196,10 @@ def k_imp(ctx, cases, results):
         for ti, t in enumerate(c["tracers"]):
             acc = "(fun _ => true)" if t["accept"] == "ALL" else "(fun f => existsb (N.eqb f) [%s])" % "; ".join(str(ic.FILES.index(f)) for f in t["accept"])
             ts.append("{| t_id := %d; t_accepts := %s; t_import_events := fun _ => true; t_enabled := true |}" % (ti, acc))
-        L.append("Eval vm_compute in (let st := [%s] in map (fun f => match compile_of st f true true with Stock => [] | Rewritten l => l end) [%s])."
-                 % ("; ".join(ts), "; ".join(str(ic.FILES.index(f)) for f in IN_CTX)))
+        later = "[]" if c.get("deferred") != "first" else "(firstn 1 st)"
+        L.append("Eval vm_compute in (let st := [%s] in (map (fun f => match compile_of st f true true with Stock => [] | Rewritten l => l end) [%s], "
+                 "match compile_later st %s %d true true with Stock => [] | Rewritten l => l end))."
+                 % ("; ".join(ts), "; ".join(str(ic.FILES.index(f)) for f in IN_CTX), later, ic.FILES.index("px/g.py")))
     rc_, o = lib.coq_eval("c12_kimp", "\n".join(L) + "\n", timeout=600)
     vals = lib.parse_marked(o) if rc_ == 0 else []
     if rc_ != 0 or len(vals) != len(cases):
@@ -186,8 +207,11 @@ def k_imp(ctx, cases, results):
         return 0
     bad, okc = [], 0
     for c, rs, v in zip(cases, results, vals):
-        m = lib.parse_coq_list(v)
+        m, m_later = lib.parse_coq_list(v)
         if any("crash" in r for r in rs):
+            continue
+        if c.get("deferred") and sorted(m_later) != sorted({e[0] for e in rs[1].get("deferred_events", [])}):
+            bad.append({"case": c, "model_deferred": sorted(m_later), "observed_deferred": sorted({e[0] for e in rs[1].get("deferred_events", [])})})
             continue
         obs = []
         for f in IN_CTX:
